@@ -257,7 +257,18 @@ def static_events(case, t, k, sim, rng, want, build_opts=None, solve_opts=None, 
     bev = {"case": case, "ev": "BuildForce", "raised": "",
            "opts": {"limit": lim_kind, "cos": lim_cos, "fit": fit, "ignore_four": ign4}}
     try:
-        forsys.build_force_matrix(when=0, angle_limit=lim, circle_fit_method=fit,
+        pre = build_opts.get("prebuild")
+        if pre:
+            # an earlier build on the same object with other arguments must not influence the judged build
+            plim, _, _ = limit_desc(pre.get("limit", "pi"))
+            pkw = {"angle_limit": plim, "circle_fit_method": pre.get("fit", "dlite")}
+            if pre.get("ignore_four") is not None:
+                pkw["metadata"] = {"ignore_four": True} if pre["ignore_four"] else {}
+            forsys.build_force_matrix(when=0, **pkw)
+        if build_opts.get("no_metadata") and not ign4:
+            forsys.build_force_matrix(when=0, angle_limit=lim, circle_fit_method=fit)
+        else:
+            forsys.build_force_matrix(when=0, angle_limit=lim, circle_fit_method=fit,
                                   metadata={"ignore_four": True} if ign4 else {})
         fmx = forsys.force_matrices[0]
         bev["fm"] = project_force_matrix(fmx, vidx, frame)
